@@ -12,3 +12,4 @@ pub mod rng;
 pub mod runner;
 pub mod sanit;
 pub mod script;
+pub mod subctl;
